@@ -279,6 +279,9 @@ func C16Child(docsFile string, from int) {
 			fmt.Printf("HANG %d\n", k)
 			os.Exit(4)
 		}
+		if os.Getenv("C16_ONE") != "" {
+			break // confirmation run of a single document
+		}
 	}
 	fmt.Println("DONE")
 }
@@ -384,6 +387,7 @@ func c16RunBatch(name string, docs []c16Doc, dir string, deadline time.Time) *vl
 				res.Violations = append(res.Violations, v)
 			}
 		}
+		hangsNotReproduced := 0
 		for from < len(docs) {
 			if !deadline.IsZero() && time.Now().After(deadline) {
 				exhaustive = false
@@ -421,8 +425,23 @@ func c16RunBatch(name string, docs []c16Doc, dir string, deadline time.Time) *vl
 				case "HANG":
 					lastState = "HANG"
 					n++
-					outcomes["hang"] = true
-					addV(k, "hang", "in_process", "did not finish within 30s")
+					// a hang of the code under test repeats; a paused or overloaded machine does not:
+					// the document is run once more, alone, before the hang is believed
+					cc := exec.Command(os.Args[0], "-c16child", docsFile, "-c16from", fmt.Sprint(k))
+					cc.Env = append(os.Environ(), "GOMAXPROCS=2", "C16_ONE=1")
+					var so2, se2 limitedBuf
+					cc.Stdout, cc.Stderr = &so2, &se2
+					cc.Run()
+					if strings.Contains(so2.String(), fmt.Sprintf("HANG %d\n", k)) {
+						outcomes["hang"] = true
+						addV(k, "hang", "in_process", "did not finish within 30s (twice: in its batch and alone)")
+					} else if strings.Contains(so2.String(), fmt.Sprintf("OK %d\n", k)) {
+						outcomes["ok"] = true
+						hangsNotReproduced++
+					} else {
+						outcomes["crash"] = true
+						addV(k, "panic", panicSite(se2.String()+so2.String()), "did not finish within 30s in its batch; alone: "+firstN(se2.String()+so2.String(), 700))
+					}
 				}
 			}
 			if strings.Contains(so.String(), "DONE") {
@@ -441,6 +460,9 @@ func c16RunBatch(name string, docs []c16Doc, dir string, deadline time.Time) *vl
 			from = last + 1
 		}
 		res.Extra["samples"] = []any{map[string]any{"position": docs[0].Pos, "shape": docs[0].Shape}, map[string]any{"position": docs[len(docs)-1].Pos, "shape": docs[len(docs)-1].Shape}}
+		if hangsNotReproduced > 0 {
+			res.Extra["timeouts_not_reproduced_alone"] = hangsNotReproduced
+		}
 		res.Stats = vlab.Stats{Scenario: name, Execs: n, States: n, Transitions: n, Outcomes: len(outcomes) + 1, Exhaustive: exhaustive}
 		return res
 	}
